@@ -139,6 +139,12 @@ def _validate_one(job):
         return {"error": out[-4000:], "trace_file": trace_file}
     with open(out_file) as f:
         res = json.load(f)
+    if "statlist" in res:      # list of evaluated clause names -> counts
+        st = {}
+        for c in res.pop("statlist"):
+            st[c] = st.get(c, 0) + 1
+        st["events"] = sum(st.values())
+        res["stat"] = st
     res["wall"] = time.time() - t0
     res["states"] = parse_counts(out)
     return res
@@ -175,3 +181,26 @@ def split(traces, n):
         bins[i].append(t)
         sizes[i] += len(t["events"])
     return [b for b in bins if b]
+
+
+def run_states(module, cfg, work, workers=NCPU, timeout=3600):
+    """exhaustive run with `-dump`: returns (list of parsed states, counts, tlc output)"""
+    meta = os.path.join(work, "meta-states")
+    dump = os.path.join(work, "states")
+    args = ["-workers", str(workers), "-metadir", meta, "-noGenerateSpecTE", "-config", cfg, "-dump", dump, module]
+    rc, out = _java(args, timeout=timeout)
+    ok = rc == 0 and "No error has been found" in out
+    states = []
+    path = dump + ".dump"
+    if os.path.exists(path):
+        with open(path) as f:
+            txt = f.read()
+        for blk in re.split(r"^State \d+:\s*$", txt, flags=re.M)[1:]:
+            blk = blk.strip()
+            if blk:
+                states.append(tlaval.parse_state(blk))
+        os.unlink(path)
+    shutil.rmtree(meta, ignore_errors=True)
+    res = parse_counts(out)
+    res.update(ok=ok, out=out)
+    return states, res
